@@ -67,7 +67,7 @@ ConnPlan(k) ==
    srv |-> [BaseSrv EXCEPT !.reply = [kind |-> "rsp", sel |-> B4(sel), flags |-> Pick({0, 1, 8, 255})], !.ident = Pick({"leaf", "leaf2"}) , !.uid = uid,
                            !.account = [domain |-> dom, user |-> usr, password |-> pw]]
            @@ [blocks |-> [version |-> Pick(Versions), core_opt |-> Pick(0..2), with_security |-> Pick(BOOLEAN), order |-> Pick(Orders)],
-               licence |-> Pick({"valid", "new"}), share |-> B4(Pick({0, 1, 66538, 16777215})) , capv |-> Pick(0..3), activations |-> Pick({1, 1, 2}), errinfo |-> Pick(BOOLEAN)],
+               licence |-> Pick({"valid", "new"}), licflags |-> Pick({2, 3, 130, 131}), share |-> B4(Pick({0, 1, 66538, 16777215})) , capv |-> Pick(0..3), activations |-> Pick({1, 1, 2}), errinfo |-> Pick(BOOLEAN)],
    inputs |-> << [api |-> "write", dev |-> "ptr", x |-> Pick({0, 1, 65535}), y |-> 5, b |-> Pick(0..3), down |-> Pick(BOOLEAN)],
                  [api |-> "try_write", dev |-> "key", code |-> Pick({0, 30, 65535}), down |-> Pick(BOOLEAN)] >>,
    shutdown |-> TRUE]
